@@ -48,11 +48,11 @@ func ea(callee, fn, how, reason string) errAllowEntry {
 var errAllow = []errAllowEntry{
 	ea(`strings\.\(\*Builder\)\.Write(String|Rune|Byte)?`, "", "", "documented to always return a nil error"),
 	ea(`bytes\.\(\*Buffer\)\.Write(String|Rune|Byte)?`, "", "", "documented to always return a nil error (panics on OOM)"),
-	ea(`fmt\.(Print|Printf|Println|Fprintf|Fprint|Fprintln)`, "", "", "terminal/diagnostic output; C06 is about input and evaluation failures (noted)"),
+	ea(`fmt\.(Fprintf|Fprint|Fprintln)`, "", "memory-or-stderr", "writes into an in-memory buffer (cannot fail) or a diagnostic to stderr"),
+	ea(`fmt\.(Print|Printf|Println)`, `main\.main|cmd\..*|plugins/.*|telemetry\..*|logs\..*`, "", "messages of the plugin/administration subcommands and the forced-stop notice, not query results"),
 	ea(`.*\.Close`, "", "defer statement", "deferred Close of a handle whose data has already been consumed"),
 	ea(`io\.Closer\.Close`, `datasources/lines\.Creator`, "", "read-only preview handle"),
 	ea(`github\.com/nxadm/tail\.\(\*Tail\)\.Stop|io\.\(\*Pipe(Reader|Writer)\)\.(Close|CloseWithError|Write)`, `execution/files\.Tail`, "", "tail pipe plumbing: a failed pipe write means the reader side was closed"),
-	ea(`outputs/batch\.Format\.(Write|Close)|bytes\.\(\*Buffer\)\.WriteTo|github\.com/gosuri/uilive\.\(\*Writer\)\.Flush`, `outputs/batch\.\(\*OutputPrinter\)\.Run`, "", "table rendering into an in-memory buffer / the terminal (final output, noted)"),
 	ea(`encoding/csv\.\(\*Writer\)\.Write`, `outputs/formats\.\(\*CSVFormatter\)\.SetSchema`, "", "header row into a buffered writer (final output, noted)"),
 	ea(`io\.Writer\.Write`, `outputs/formats\.\(\*JSONFormatter\)\.Write`, "", "final output to stdout (noted)"),
 	ea(`github\.com/Masterminds/semver\.NewConstraint`, "", "constarg", "constant constraint string \"*\" always parses"),
@@ -280,6 +280,23 @@ func runC06(c *core.Ctx) {
 				allowed := ""
 				for _, e := range errAllow {
 					how := e.how
+					if how == "memory-or-stderr" {
+						how = ""
+						if len(s.Call.Args) == 0 {
+							continue
+						}
+						target := core.Unparen(s.Call.Args[0])
+						if ue, ok := target.(*ast.UnaryExpr); ok && ue.Op == token.AND {
+							target = ue.X
+						}
+						tt := ""
+						if t := info.TypeOf(target); t != nil {
+							tt = strings.TrimPrefix(t.String(), "*")
+						}
+						if tt != "bytes.Buffer" && tt != "strings.Builder" && core.ExprStr(target) != "os.Stderr" {
+							continue
+						}
+					}
 					if how == "constarg" {
 						how = ""
 						if len(s.Call.Args) != 1 {
